@@ -11,7 +11,8 @@ ID = "C12"
 TECHNIQUE = "property-based testing (Hypothesis), metamorphic table: driver x k => listed footprints x k (or 1/k), all other calculated attributes unchanged"
 LEVEL_TEXT = ("generated systems; one cost driver of one object multiplied by k; every calculated attribute of every object "
               "compared with the factor the documentation of the update functions implies (k, 1/k, 1, affine for shared "
-              "objects)")
+              "objects), between fresh builds and when the driver is scaled by an edit of a live model (also after histories "
+              "containing refused edits)")
 LEVEL_NOTE = "the expectation table is written from the property text and the docstrings/labels of the update functions"
 RULE = ("Hypothesis draws a system spec, a driver (server PUE / carbon intensity / fabrication / lifespan, storage "
         "fabrication per capacity / lifespan, network bandwidth intensity, country carbon intensity, device power / "
